@@ -64,8 +64,15 @@ class DftCase:
         self.axes, self.phys, self.note, self.cutoff = axes, phys, note, cutoff
         self.group = None
 
-    def _setup_text(self):
+    def _setup_text(self, zscale=1.0):
+        """zscale = 0.5: the object is CONSTRUCTED with half the impedance of the case; a `Z` operation of the history
+        (`*impedance += *impedance`, an exact doubling in binary32) then brings the shared impedance object to the case's table"""
         a, p = self.axes, self.phys
+        if zscale != 1.0:
+            import copy
+            h = copy.copy(self)
+            h.zre, h.zim = [v * zscale for v in self.zre], [v * zscale for v in self.zim]
+            return h._setup_text()
         return "%s %d %d %d %d\n%s\n%s %s %s %s %s %s\n%s\n%s\n%s\n%s\n" % (
             self.cid, self.N, self.n, self.s, self.nb, " ".join(str(b) for b in self.buckets),
             fhex(a["qmin"]), fhex(a["qmax"]), fhex(a["qscale"]), fhex(a["pmin"]), fhex(a["pmax"]), fhex(a["pscale"]),
@@ -88,7 +95,7 @@ class DftCase:
             return t
         if kind == "csrmb":
             pre = getattr(self, "pre", [])
-            t = "csrmb " + self._setup_text() + fhex(self.cutoff) + "\n%d\n" % len(pre)
+            t = "csrmb " + self._setup_text(0.5 if any(k == "Z" for k, _ in pre) else 1.0) + fhex(self.cutoff) + "\n%d\n" % len(pre)
             for k, profs in pre:
                 t += "%s %s\n" % (k, " ".join(fhex(v) for pr in profs for v in pr))
             return t
@@ -727,6 +734,13 @@ def gen_csrmb_cases(ctx, count, sizes, prefix="m"):
         c0 = DftCase("%s%da" % (prefix, i), N, n, s, bks, zre, zim, prof, axes, phys, note="%s[%s]/%s" % (zk, band, "+".join(pks)))
         c1 = DftCase("%s%db" % (prefix, i), N, n, s, bks, zre, zim, prof, axes, phys, note="%s[%s]/%s" % (zk, band, "+".join(pks)), cutoff=-1.0)
         c1.cut_frac = rng.uniform(0.15, 1.2)
+        if rng.random() < 0.25:
+            # the impedance object shared with the field is changed IN PLACE between two updateCSR() calls with the same cut-off
+            # (`c` = updateCSR(cutoff of the case), `Z` = impedance doubled in place; the object starts with half the table): what
+            # updateCSR() derives from the impedance must not survive the change (seed C07-E)
+            mk = lambda: [_profile(rng, n, rng.choice(["random", "signed", "int"])) for _ in bks]
+            pre = pre + [("c", mk()), ("Z", mk())] + ([("c", mk())] if rng.random() < 0.3 else [])
+            ctx.count("csrmb:impedance-changed-in-place")
         c0.pre = c1.pre = pre
         c0.passive = c1.passive = zk in ("passive", "smooth")
         cases.append((c0, c1))
